@@ -565,6 +565,17 @@ mutual
 theorem frame_step : ∀ (op : Op) (s : St), Frame s (step s op).1
   | .newInst c kw, s => (newInst_frames s c kw).1
   | .instSet i n v, s => by simp only [step]; exact (instSetCore_frames s i n v).1
+  | .instSetAsync i n v, s => by
+    simp only [step]
+    split
+    · exact Frame.refl _
+    · split
+      · exact Frame.refl _
+      · split
+        · exact Frame.refl _
+        · split
+          · exact (instSetCore_frames s i n v).1
+          · exact Frame.refl _
   | .instSetSame i n, s => by
     simp only [step]
     split
@@ -618,6 +629,17 @@ leaves the `constant` flag of every existing Parameter object as it was -/
 theorem const_step : ∀ (op : Op) (s : St), op.noFlag = true → ConstFrame s (step s op).1
   | .newInst c kw, s, _ => (newInst_frames s c kw).2
   | .instSet i n v, s, _ => by simp only [step]; exact (instSetCore_frames s i n v).2.1
+  | .instSetAsync i n v, s, _ => by
+    simp only [step]
+    split
+    · exact ConstFrame.refl _
+    · split
+      · exact ConstFrame.refl _
+      · split
+        · exact ConstFrame.refl _
+        · split
+          · exact (instSetCore_frames s i n v).2.1
+          · exact ConstFrame.refl _
   | .instSetSame i n, s, _ => by
     simp only [step]
     split
@@ -1022,6 +1044,17 @@ mutual
 theorem wf_step : ∀ (op : Op) (s : St), WF s → WF (step s op).1
   | .newInst c kw, s, h => wf_newInst h c kw
   | .instSet i n v, s, h => by simp only [step]; exact (instSetCore_gov h i n v).1
+  | .instSetAsync i n v, s, h => by
+    simp only [step]
+    split
+    · exact h
+    · split
+      · exact h
+      · split
+        · exact h
+        · split
+          · exact (instSetCore_gov h i n v).1
+          · exact h
   | .instSetSame i n, s, h => by
     simp only [step]
     split
@@ -1408,6 +1441,17 @@ theorem step_classes (s : St) (op : Op) (h1 : op.isBlock = false)
     · rfl
     · split <;> rfl
   | instSet i n v => simp only [step]; exact (instSetCore_frames s i n v).2.2
+  | instSetAsync i n v =>
+    simp only [step]
+    split
+    · rfl
+    · split
+      · rfl
+      · split
+        · rfl
+        · split
+          · exact (instSetCore_frames s i n v).2.2
+          · rfl
   | instSetSame i n =>
     simp only [step]
     split
